@@ -13,7 +13,7 @@
 From GV.Model Require Import Ast Spec.
 From GV.Model Require Import Lex ValueParse QueryParse OpParse ClauseParse CnfParse FilterParse ClauseFParse CnfFParse LetParse CallParse.
 From GV.Proofs Require Import LexProps ValueParseProps ValueSpellProps ValueSpellExample.
-From GV.Proofs Require Import QueryParseProps QuerySpellProps QuerySpellExample ThisProps OpParseProps ClauseParseProps ClauseSpellProps ClauseSpellExample CnfParseProps OpSoundProps ClauseFuelProps CnfSpellProps CnfSpellExample FilterParseProps ClauseFProps CnfFProps LetParseProps CallParseProps.
+From GV.Proofs Require Import QueryParseProps QuerySpellProps QuerySpellExample ThisProps OpParseProps ClauseParseProps ClauseSpellProps ClauseSpellExample CnfParseProps OpSoundProps ClauseFuelProps CnfSpellProps CnfSpellExample FilterParseProps ClauseFProps CnfFProps LetParseProps CallParseProps FuelMonoProps CallExtendProps.
 
 Theorem C14_keyword_tables_are_the_documented_ones :
   set_eqb kw_in_keyword ["in"; "IN"] = true /\ set_eqb kw_keys ["keys"; "KEYS"] = true /\
@@ -360,3 +360,19 @@ Theorem C14_function_table : map (fun p => (fst p, snd (snd p))) fn_table =
    ("parse_int", 1); ("parse_string", 1); ("regex_replace", 3); ("substring", 3); ("to_lower", 1); ("to_upper", 1); ("url_decode", 1)]%nat.
 Proof. exact function_table. Qed.
 Print Assumptions C14_function_table.
+
+(* more fuel never changes an answer of the query parser with filters or of the clause parser over it *)
+Theorem C14_filter_parser_fuel_monotone : forall rv n m s x, (n <= m)%nat -> access_f rv n s = x -> x <> POof -> access_f rv m s = x.
+Proof. exact access_f_mono. Qed.
+Print Assumptions C14_filter_parser_fuel_monotone.
+
+(* the three layers of the clause grammar - filter-free, with filters, with calls - read a filter-free clause alike *)
+Theorem C14_three_layers_agree : forall rv s c r, clause_top rv s = POk c r ->
+  clause_f_top rv s = POk (embed_clause c) r /\ clause_c_top rv s = POk (with_calls (embed_clause c)) r.
+Proof. exact three_layers_agree. Qed.
+Print Assumptions C14_three_layers_agree.
+
+Theorem C14_clause_parser_with_calls_extends : forall rv n s x, clause_f rv n s = x -> x <> PUnk -> x <> POof ->
+  forall m, (n <= m)%nat -> clause_c rv (S m) s = pmap with_calls x.
+Proof. exact clause_c_extends. Qed.
+Print Assumptions C14_clause_parser_with_calls_extends.
